@@ -144,6 +144,9 @@ func (i *interpreter) divmodConst(x *smt.Term, cval uint64, signed bool) (*smt.T
 	if p.aux == nil {
 		p.aux = &auxDefs{seen: map[string]bool{}}
 	}
+	if q, r, ok := i.divmodOfScaledSum(x, cval, signed); ok {
+		return q, r
+	}
 	key := fmt.Sprintf("%d/%d/%v", x.ID, cval, signed)
 	q := c.Var("aux.q:"+key, w)
 	r := c.Var("aux.r:"+key, w)
@@ -276,6 +279,151 @@ func (i *interpreter) ensureAuxFor(v value) {
 			terms = append(terms, e.def)
 		}
 	}
+}
+
+// scaledParts matches x = a*c + b with a constant c > 1 (either operand order); for a constant x
+// it returns the truncated quotient and remainder.
+func (i *interpreter) scaledParts(x *smt.Term, cval uint64) (a, b *smt.Term, ok bool) {
+	c := i.ctx
+	if x.W != 64 {
+		return nil, nil, false
+	}
+	if x.IsConst() {
+		if cval == 0 {
+			return nil, nil, false
+		}
+		sx, sc := x.SignedVal(), int64(cval)
+		return c.BV(uint64(sx/sc), 64), c.BV(uint64(sx%sc), 64), true
+	}
+	if x.Op != smt.OBvAdd {
+		return nil, nil, false
+	}
+	for k := 0; k < 2; k++ {
+		m, o := x.Args[k], x.Args[1-k]
+		if m.Op == smt.OBvMul {
+			if m.Args[0].IsConst() && m.Args[0].Val == cval {
+				return m.Args[1], o, true
+			}
+			if m.Args[1].IsConst() && m.Args[1].Val == cval {
+				return m.Args[0], o, true
+			}
+		}
+	}
+	return nil, nil, false
+}
+
+// scaleConstOf returns the constant c if x has the shape a*c + b.
+func scaleConstOf(x *smt.Term) (uint64, bool) {
+	if x.Op != smt.OBvAdd || x.W != 64 {
+		return 0, false
+	}
+	for k := 0; k < 2; k++ {
+		m := x.Args[k]
+		if m.Op == smt.OBvMul {
+			if m.Args[0].IsConst() && int64(m.Args[0].Val) > 1<<16 {
+				return m.Args[0].Val, true
+			}
+			if m.Args[1].IsConst() && int64(m.Args[1].Val) > 1<<16 {
+				return m.Args[1].Val, true
+			}
+		}
+	}
+	return 0, false
+}
+
+// scaledSide: the path condition implies |b| < c and |a| small enough that a*c cannot overflow.
+func (i *interpreter) scaledSide(a, b *smt.Term, cval uint64) bool {
+	c := i.ctx
+	k := c.BV(cval, 64)
+	lim := c.BV(uint64((int64(1)<<62)/int64(cval)), 64)
+	side := c.And(c.And(c.Bin(smt.OBvSlt, c.BvNeg(k), b), c.Bin(smt.OBvSlt, b, k)),
+		c.And(c.Bin(smt.OBvSle, c.BvNeg(lim), a), c.Bin(smt.OBvSle, a, lim)))
+	if side.IsTrue() {
+		return true
+	}
+	key := fmt.Sprintf("%d|%x", side.ID, i.path.pcHash)
+	if v, ok := i.sideCache[key]; ok {
+		return v
+	}
+	res, _ := i.solver.Check(c.Not(side), false, nil)
+	if i.sideCache == nil || len(i.sideCache) > 100000 {
+		i.sideCache = map[string]bool{}
+	}
+	i.sideCache[key] = res == smt.Unsat
+	return res == smt.Unsat
+}
+
+// compareScaled decides x < y, x <= y or x == y (signed) for two values of the shape a*c + b
+// without inverting the multiplications: with d = a1-a2 and e = b2-b1 (|e| < 2c) the comparison
+// only depends on d in {<=-2, -1, 0, 1, >=2} and on e against -c, 0, c.
+func (i *interpreter) compareScaled(op string, x, y *smt.Term) (*smt.Term, bool) {
+	cval, ok := scaleConstOf(x)
+	if !ok {
+		cval, ok = scaleConstOf(y)
+	}
+	if !ok {
+		return nil, false
+	}
+	a1, b1, ok1 := i.scaledParts(x, cval)
+	a2, b2, ok2 := i.scaledParts(y, cval)
+	if !ok1 || !ok2 || !i.scaledSide(a1, b1, cval) || !i.scaledSide(a2, b2, cval) {
+		return nil, false
+	}
+	c := i.ctx
+	d := c.Bin(smt.OBvSub, a1, a2)
+	e := c.Bin(smt.OBvSub, b2, b1)
+	k := c.BV(cval, 64)
+	nk := c.BvNeg(k)
+	zero := c.BV(0, 64)
+	dIs := func(v int64) *smt.Term { return c.Eq(d, c.BV(uint64(v), 64)) }
+	switch op {
+	case "lt":
+		r := c.Bin(smt.OBvSle, d, c.BvNeg(c.BV(2, 64)))
+		r = c.Or(r, c.And(dIs(-1), c.Bin(smt.OBvSlt, nk, e)))
+		r = c.Or(r, c.And(dIs(0), c.Bin(smt.OBvSlt, zero, e)))
+		r = c.Or(r, c.And(dIs(1), c.Bin(smt.OBvSlt, k, e)))
+		return r, true
+	case "le":
+		r := c.Bin(smt.OBvSle, d, c.BvNeg(c.BV(2, 64)))
+		r = c.Or(r, c.And(dIs(-1), c.Bin(smt.OBvSle, nk, e)))
+		r = c.Or(r, c.And(dIs(0), c.Bin(smt.OBvSle, zero, e)))
+		r = c.Or(r, c.And(dIs(1), c.Bin(smt.OBvSle, k, e)))
+		return r, true
+	case "eq":
+		r := c.And(dIs(0), c.Eq(e, zero))
+		r = c.Or(r, c.And(dIs(1), c.Eq(e, k)))
+		r = c.Or(r, c.And(dIs(-1), c.Eq(e, nk)))
+		return r, true
+	}
+	return nil, false
+}
+
+// divmodOfScaledSum handles x = a*c + b (the shape of a time.Duration built from a seconds and
+// a nanoseconds difference) divided by the same constant c: when the path condition implies
+// |b| < c and that a*c cannot overflow, quotient and remainder are a and b up to a carry of one,
+// with no multiplication to invert.  The two side conditions are discharged by the solver.
+func (i *interpreter) divmodOfScaledSum(x *smt.Term, cval uint64, signed bool) (*smt.Term, *smt.Term, bool) {
+	if !signed || x.Op != smt.OBvAdd || x.W != 64 || int64(cval) <= 1 {
+		return nil, nil, false
+	}
+	c := i.ctx
+	a, b, ok := i.scaledParts(x, cval)
+	if !ok || !i.scaledSide(a, b, cval) {
+		return nil, nil, false
+	}
+	w := 64
+	k := c.BV(cval, w)
+	zero := c.BV(0, w)
+	one := c.BV(1, w)
+	// truncated division of n = a*c + b with |b| < c
+	nNonNeg := c.Bin(smt.OBvSle, zero, x)
+	bNeg := c.Bin(smt.OBvSlt, b, zero)
+	bPos := c.Bin(smt.OBvSlt, zero, b)
+	borrow := c.And(nNonNeg, bNeg)       // q = a-1, r = b+c
+	carry := c.And(c.Not(nNonNeg), bPos) // q = a+1, r = b-c
+	q := c.Ite(borrow, c.Bin(smt.OBvSub, a, one), c.Ite(carry, c.Bin(smt.OBvAdd, a, one), a))
+	r := c.Ite(borrow, c.Bin(smt.OBvAdd, b, k), c.Ite(carry, c.Bin(smt.OBvSub, b, k), b))
+	return q, r, true
 }
 
 func mask64(w int) uint64 {
